@@ -282,6 +282,7 @@ func C01(c *mon.Ctx) {
 		}
 		check(w, tables[i].e, tables[i].env, "table-after-failure")
 	})
+	c01Sizes(c)
 	n := c.N(40000, 1500000)
 	depth := 5
 	if c.Thorough() {
